@@ -57,13 +57,29 @@ func VerifH_C12_changes() {
 		symAssert(err == nil, "scan-ok")
 		vers = append(vers, vVer{names, keys, bs})
 	}
-	// an ordered pair of versions
-	ai := symChoice("from", steps)
+	// an ordered pair of versions; "from" may also be the version of the still
+	// empty table, for which s3db_version() returns '[]'
+	ai := symChoice("from", steps+1)
 	bi := symChoice("to", steps)
-	A, B := vers[ai], vers[bi]
-	if len(A.names) == 0 || len(B.names) == 0 {
+	var A vVer
+	if ai == steps {
+		A = vVer{names: []string{}}
+	} else {
+		A = vers[ai]
+	}
+	B := vers[bi]
+	if (ai < steps && len(A.names) == 0) || len(B.names) == 0 {
 		symReach("end")
 		return
+	}
+	// optionally an object that one of the two versions needs is gone
+	// (vacuumed, or not visible yet): the query must fail, not answer partially
+	if symParam("damage", 1) == 1 && symChoice("damage", 2) == 1 {
+		nodes := bkt.names("p/s3db-rows/node/")
+		if len(nodes) > 0 {
+			delete(bkt.objs, nodes[symChoice("which-node", len(nodes))])
+			vC12Damaged = true
+		}
 	}
 	// optionally one storage fault while the diff runs
 	faulty := symParam("faults", 0) == 1 && symChoice("faulty", 2) == 1
@@ -120,10 +136,21 @@ func VerifH_C12_changes() {
 		symReach("end")
 		return
 	}
+	if vC12Damaged {
+		// whatever it answers without an error must be the full answer
+		if !failed {
+			vCheckChanges(A, B, gotK, gotB)
+		}
+		vC12Damaged = false
+		symReach("end")
+		return
+	}
 	symAssert(!failed, "changes-query-succeeds")
 	vCheckChanges(A, B, gotK, gotB)
 	symReach("end")
 }
+
+var vC12Damaged bool
 
 var vPrevT int64
 
